@@ -1,4 +1,5 @@
 import typing as t
+from unicodedata import normalize
 
 from . import nodes
 from .visitor import NodeVisitor
@@ -51,7 +52,15 @@ class Symbols:
         visitor.visit(node, **kwargs)
 
     def _define_ref(self, name: str, load: tuple[str, str | None] | None = None) -> str:
-        ident = f"l_{self.level}_{name}"
+        # Python compares identifiers in their NFKC form. A name that changes
+        # under that normalization is spelled out as the hex digits of its
+        # encoding so that two different names never share a local. A name
+        # cannot start with a digit, the result is unique.
+        if normalize("NFKC", name) != name:
+            ident = f"l_{self.level}_0{name.encode().hex()}"
+        else:
+            ident = f"l_{self.level}_{name}"
+
         self.refs[name] = ident
         if load is not None:
             self.loads[ident] = load
